@@ -377,6 +377,8 @@ pub fn is_brackets_string(expression: &Expression) -> bool {
         ),
         #[cfg(feature = "luau")]
         Expression::TypeAssertion { expression, .. } => is_brackets_string(expression),
+        // Redundant parentheses around the string are removed when it is formatted
+        Expression::Parentheses { expression, .. } => is_brackets_string(expression),
         _ => false,
     }
 }
